@@ -87,6 +87,14 @@ def update (c : Ctx) (d : List UInt8) : Ctx :=
     ⟨h, count, rest⟩
   else ⟨c.h, count, c.buf ++ d⟩
 
+/-- the two 32-bit words `count[0]`, `count[1]` of the bit counter as `SHA1::update(data, len)` maintains them
+    (`uint32_t`; the carry test is `(count[0] += len << 3) < old count[0]`) -/
+def countWords (c0 c1 : UInt32) (len : Nat) : UInt32 × UInt32 :=
+  let add := UInt32.ofNat len <<< 3
+  let n0 := c0 + add
+  let c1 := if n0 < c0 then c1 + 1 else c1
+  (n0, c1 + (UInt32.ofNat len >>> 29))
+
 def be64 (n : Nat) : List UInt8 :=
   [56, 48, 40, 32, 24, 16, 8, 0].map fun s => UInt8.ofNat ((n >>> s) % 256)
 
@@ -144,5 +152,54 @@ def sha1 (m : List UInt8) : List UInt8 :=
   Impl.digest ((chunks64 p (p.length / 64 + 1)).foldl compress init)
 
 end Fips
+
+/-! ## FIPS 180-4 as printed (§2.2.2 ROTL, §4.1.1 Ch/Parity/Maj, §4.2.1 K_t, §5.1.1 padding, §5.3.1 H(0), §6.1.2):
+nothing here refers to the implementation model's round function, constants, rotation or padding -/
+namespace Std
+
+def ROTL (n : Nat) (x : W) : W := (x <<< UInt32.ofNat n) ||| (x >>> UInt32.ofNat (32 - n))
+def Ch (x y z : W) : W := (x &&& y) ^^^ (~~~x &&& z)
+def Parity (x y z : W) : W := x ^^^ y ^^^ z
+def Maj (x y z : W) : W := (x &&& y) ^^^ (x &&& z) ^^^ (y &&& z)
+
+def ft (t : Nat) (x y z : W) : W :=
+  if t ≤ 19 then Ch x y z else if t ≤ 39 then Parity x y z else if t ≤ 59 then Maj x y z else Parity x y z
+
+def Kt (t : Nat) : W :=
+  if t ≤ 19 then 0x5a827999 else if t ≤ 39 then 0x6ed9eba1 else if t ≤ 59 then 0x8f1bbcdc else 0xca62c1d6
+
+def H0 : St := ⟨0x67452301, 0xefcdab89, 0x98badcfe, 0x10325476, 0xc3d2e1f0⟩
+
+/-- §6.1.2 step 1: W_t = M_t for t < 16, ROTL¹(W_{t-3} ⊕ W_{t-8} ⊕ W_{t-14} ⊕ W_{t-16}) for 16 ≤ t ≤ 79 -/
+def schedule (M : List W) : List W :=
+  (List.range 64).foldl (fun ws i =>
+    let t := i + 16
+    ws ++ [ROTL 1 (ws.getD (t - 3) 0 ^^^ ws.getD (t - 8) 0 ^^^ ws.getD (t - 14) 0 ^^^ ws.getD (t - 16) 0)]) M
+
+/-- §6.1.2 step 3 -/
+def stepT (ws : List W) (s : St) (t : Nat) : St :=
+  let T := ROTL 5 s.a + ft t s.b s.c s.d + s.e + Kt t + ws.getD t 0
+  ⟨T, s.a, ROTL 30 s.b, s.c, s.d⟩
+
+/-- §6.1.2 steps 1–4 for one 512-bit block -/
+def compress (H : St) (block : List UInt8) : St :=
+  let ws := schedule (words block)
+  let r := (List.range 80).foldl (stepT ws) H
+  ⟨r.a + H.a, r.b + H.b, r.c + H.c, r.d + H.d, r.e + H.e⟩
+
+/-- the 64-bit big-endian representation of `n` -/
+def be64 (n : Nat) : List UInt8 :=
+  [7, 6, 5, 4, 3, 2, 1, 0].map fun i => UInt8.ofNat (n / 256 ^ i % 256)
+
+/-- §5.1.1: append the bit 1, then k zero bits with l + 1 + k ≡ 448 (mod 512), then the length in bits -/
+def pad (m : List UInt8) : List UInt8 :=
+  let k := (64 - (m.length + 9) % 64) % 64       -- zero *bytes* after the 0x80 byte
+  m ++ [0x80] ++ List.replicate k 0 ++ be64 (8 * m.length)
+
+def sha1 (m : List UInt8) : List UInt8 :=
+  let p := pad m
+  Impl.digest ((Fips.chunks64 p (p.length / 64 + 1)).foldl compress H0)
+
+end Std
 
 end AslModel.Sha1
